@@ -163,5 +163,13 @@ func anticipated(x *world) []*fcase {
 	add("complete-multipart-upload", "body:doc", "nil-part", credValid)
 	add("complete-multipart-upload", "body:doc", "missing-etag", credValid)
 	add("complete-multipart-upload", "body:doc", "part-number-2^31", credValid)
+	// ranges at the edges of the object (every run): from the first byte on, one byte, the last byte, past the end,
+	// the whole 63-bit range
+	for _, cls := range []string{"first-only", "0-0", "suffix-1", "suffix-0", "beyond", "to-2^63-1", "2^63-1-open", "1e9", "multi"} {
+		add("get-object", "h:Range", cls, credValid)
+	}
+	add("head-object", "h:Range", "first-only", credValid)
+	add("upload-part-copy", "h:X-Amz-Copy-Source-Range", "first-only", credValid)
+	add("upload-part-copy", "h:X-Amz-Copy-Source-Range", "to-2^63-1", credValid)
 	return out
 }
